@@ -487,9 +487,12 @@ def make_layout(d, spec):
         if not DECOY_WHERE_CWD_RELATIVE_LINK_LANDS:
             for src, dst in ((A, B), (B, A)):
                 cands.discard(os.path.realpath(os.path.join(os.path.dirname(dst), os.path.relpath(src, cwd))))
-        for c_ in sorted(cands):
+        tmpl = os.path.join(os.path.dirname(d), f"decoy_template_{os.getpid()}.cool")
+        if not os.path.exists(tmpl):
             for grp in ("/", "/c2", "/c10"):
-                cooler.create_cooler(c_ + "::" + grp, G.bins_df(), G.pixels_df(DECOY_STAMP), mode="a")
+                cooler.create_cooler(tmpl + "::" + grp, G.bins_df(), G.pixels_df(DECOY_STAMP), mode="a")
+        for c_ in sorted(cands):
+            shutil.copyfile(tmpl, c_)
         lay["decoys"] = sorted(cands)
     return lay
 
